@@ -330,7 +330,9 @@ def replay(pid, path):
     print(f'replay {path}: obligation {j["obligation"]} in {j["function"]} ({j["backend"]})')
     if j.get('counterexample'):
         from . import kani as K
-        return K.replay(j)
+        rc = K.replay(j)
+        if rc == 1: print(f'VIOLATION property={pid} replay={path}')
+        return rc
     # Verus: re-run the unit and report whether the named obligation still fails
     units = [u for u in load_units() if u.name == j['unit']]
     ur = run_unit(units[0], 'quick')
